@@ -18,41 +18,83 @@ namespace {
 // user-provided constructor that does not mention the hook, objects created by default-initialisation in 0xA5-filled storage
 struct Elem {
 	int prio, serial;
+	bool in;       // harness bookkeeping: contained according to the reference
 	frg::pairing_heap_hook<Elem> hook;
-	Elem() { prio = 0; serial = 0; }
+	Elem() { prio = 0; serial = 0; in = false; }
 };
 // compare(a, b): a is ordered before b (top() is an element ordered before no other)
 struct Less { bool operator()(const Elem *a, const Elem *b) const { return a->prio < b->prio; } };
 using Heap = frg::pairing_heap<Elem, frg::locate_member<Elem, frg::pairing_heap_hook<Elem>, &Elem::hook>, Less>;
 constexpr int POOL = 160;
 
+// The property speaks about top(), empty(), pop(), remove() and the hook of a removed element - not about how the heap links its
+// elements. The link fields are therefore read only (a) to steer the generator towards roots, first children, middle and last
+// siblings and leaves and (b) for the class histogram, and only while the implementation still has the three fields and they form
+// the tree the generator expects. Nothing that is read from them is an oracle; an implementation that links differently (lazy
+// insertion, a marked root, ...) is decided by the behavioural oracle alone and the position classes are waived (evidence note).
+template<typename H> constexpr bool has_links = requires(H &h) { h.child; h.backlink; h.sibling; };
+using Hook = frg::pairing_heap_hook<Elem>;
+
 struct Run {
 	Ctx &c; Heap *heap; std::vector<Elem *> ref;
-	std::vector<Elem *> order;     // traversal order of the hook links: root, then children depth first
-	void collect(Elem *n, Elem *expected_back, Elem *parent) {
-		for(Elem *cur = n, *prev = expected_back; cur; prev = cur, cur = cur->hook.sibling) {
-			VCHECK(c, "C08", order.size() <= ref.size(), "the hook links reach more than the %zu contained elements (cycle?)", ref.size());
-			VCHECK(c, "C08", cur->hook.backlink == prev, "backlink of element #%d is inconsistent", cur->serial);
-			if(parent) VCHECK(c, "C08", !Less{}(parent, cur), "child #%d (prio %d) is ordered after its parent #%d (prio %d)", cur->serial, cur->prio, parent->serial, parent->prio);
-			order.push_back(cur);
-			if(cur->hook.child) collect(cur->hook.child, cur, cur);
-		}
+	std::vector<Elem *> order;     // traversal order of the hook links: root, then children depth first (when walkable)
+	bool walkable = true;
+	bool collect(Elem *n, Elem *expected_back) {
+		if constexpr(has_links<Hook>) {
+			for(Elem *cur = n, *prev = expected_back; cur; prev = cur, cur = cur->hook.sibling) {
+				if(order.size() >= ref.size()) return false;
+				if(!cur->in) return false;
+				if(cur->hook.backlink != prev) return false;
+				order.push_back(cur);
+				if(cur->hook.child && !collect(cur->hook.child, cur)) return false;
+			}
+			return true;
+		} else return false;
 	}
+	// true when the links form one tree below top() that holds exactly the contained elements
+	bool walk() {
+		order.clear();
+		if(ref.empty()) return true;
+		bool ok = false;
+		if constexpr(has_links<Hook>) { Elem *top = heap->top(); ok = top && !top->hook.backlink && !top->hook.sibling && collect(top, nullptr) && order.size() == ref.size(); }
+		if(!ok) { order.clear(); if(walkable) { walkable = false; c.tag("hook-links-not-walkable"); } }
+		return ok;
+	}
+	unsigned children_of(Elem *x) { unsigned n = 0; if constexpr(has_links<Hook>) { if(walkable) for(Elem *k = x->hook.child; k && n < ref.size(); k = k->hook.sibling) n++; } return n; }
 	void check(const char *after) {
 		VCHECK(c, "C08", heap->empty() == ref.empty(), "after %s: empty() is %d with %zu contained elements", after, (int)heap->empty(), ref.size());
+		if(ref.empty()) return;
 		Elem *top = heap->top();
-		if(ref.empty()) { VCHECK(c, "C08", top == nullptr, "after %s: top() of an empty heap is not null", after); return; }
 		VCHECK(c, "C08", top != nullptr && std::find(ref.begin(), ref.end(), top) != ref.end(), "after %s: top() is not a contained element", after);
 		for(Elem *x : ref) VCHECK(c, "C08", !Less{}(top, x), "after %s: top() #%d (prio %d) is ordered before the contained element #%d (prio %d)", after, top->serial, top->prio, x->serial, x->prio);
-		order.clear();
-		VCHECK(c, "C08", !top->hook.backlink && !top->hook.sibling, "after %s: the root has a backlink or sibling", after);
-		collect(top, nullptr, nullptr);
-		VCHECK(c, "C08", order.size() == ref.size(), "after %s: %zu elements are reachable from top(), %zu are contained", after, order.size(), ref.size());
-		std::vector<Elem *> a = order, b = ref; std::sort(a.begin(), a.end()); std::sort(b.begin(), b.end());
-		VCHECK(c, "C08", a == b, "after %s: the elements reachable from top() are not exactly the contained ones", after);
 	}
+	// "a removed element's hook is reset": it is in the state the hook's constructor leaves (compared field by field with a hook that was
+	// just constructed; whether it can be pushed again is exercised by the re-push operations, and the hook's destructor - which asserts
+	// that it is unlinked - runs for every element at the end of the case)
 	void gone(Elem *x, const char *what) {
-		VCHECK(c, "C08", !x->hook.child && !x->hook.backlink && !x->hook.sibling, "%s: the hook of the removed element #%d is not reset", what, x->serial);
+		if constexpr(has_links<Hook>) {
+			alignas(Elem) unsigned char m[sizeof(Elem)]; memset(m, 0xA5, sizeof m); Elem *fresh = new (m) Elem;
+			VCHECK(c, "C08", x->hook.child == fresh->hook.child && x->hook.backlink == fresh->hook.backlink && x->hook.sibling == fresh->hook.sibling, "%s: the hook of the removed element #%d is not reset", what, x->serial);
+			fresh->~Elem();
+		}
+	}
+	// exact containment, observed through the interface: everything comes out by pop() exactly once, in an order the comparator allows
+	// (top() is ordered before no contained element at every step), and nothing else does
+	void drain(const char *why, std::vector<Elem *> *out) {
+		int lastp = 0; bool first = true;
+		while(!ref.empty()) {
+			check(why);
+			Elem *top = heap->top();
+			VCHECK(c, "C08", first || top->prio <= lastp, "%s: prio %d is popped after prio %d", why, top->prio, lastp);
+			lastp = top->prio; first = false;
+			heap->pop();
+			auto it = std::find(ref.begin(), ref.end(), top);
+			VCHECK(c, "C08", it != ref.end(), "%s: pop() with a top() that is not contained", why);
+			ref.erase(it); top->in = false;
+			gone(top, why);
+			if(out) out->push_back(top);
+		}
+		VCHECK(c, "C08", heap->empty(), "%s: the heap is not empty after every contained element was popped", why);
 	}
 };
 
@@ -72,33 +114,42 @@ void run(Ctx &c, bool scripted) {
 		else if(next_free < POOL) e = &pool[next_free++]; else return;
 		e->prio = prio;
 		c.op("push(#%d prio %d)", e->serial, prio);
-		r.heap->push(e); r.ref.push_back(e);
+		r.heap->push(e); r.ref.push_back(e); e->in = true;
 		r.check("push");
 	};
 	auto pop = [&]() {
 		Elem *top = r.heap->top();
-		unsigned nchild = 0; for(Elem *k = top->hook.child; k; k = k->hook.sibling) nchild++;
+		r.walk();
+		unsigned nchild = r.children_of(top);
 		c.op("pop() (#%d, %u children)", top->serial, nchild);
 		if(nchild >= 3) { nt = true; c.tag(nchild % 2 ? "pop-odd-children" : "pop-even-children"); }
+		if(!r.walkable && r.ref.size() >= 4) nt = true;
 		r.heap->pop();
 		auto it = std::find(r.ref.begin(), r.ref.end(), top);
 		VCHECK(c, "C08", it != r.ref.end(), "pop() with a top() that is not contained");
-		r.ref.erase(it);
+		r.ref.erase(it); top->in = false;
 		r.gone(top, "pop"); free_list.push_back(top);
 		r.check("pop");
 	};
 	auto remove = [&](size_t k) {
 		// k indexes the traversal order of the hook links, so root / first child / middle sibling /
 		// last sibling / leaf are all explicit choices
-		r.order.clear(); r.collect(r.heap->top(), nullptr, nullptr);
-		Elem *x = r.order[k % r.order.size()];
-		bool root = x == r.heap->top(); bool first_child = !root && x->hook.backlink->hook.child == x; bool last = !x->hook.sibling; bool has_children = x->hook.child;
-		const char *pos = root ? "root" : first_child ? (last ? "only-child" : "first-child") : (last ? "last-sibling" : "middle-sibling");
-		c.op("remove(#%d: %s%s)", x->serial, pos, has_children ? " with children" : " leaf");
-		c.tagf("remove-%s", pos); if(!has_children) c.tag("remove-leaf");
-		if(!root && has_children) nt = true;
+		Elem *x;
+		if(r.walk()) {
+			x = r.order[k % r.order.size()];
+			bool root = x == r.heap->top(), first_child = false, last = false, has_children = false;
+			if constexpr(has_links<Hook>) { first_child = !root && x->hook.backlink->hook.child == x; last = !x->hook.sibling; has_children = x->hook.child; }
+			const char *pos = root ? "root" : first_child ? (last ? "only-child" : "first-child") : (last ? "last-sibling" : "middle-sibling");
+			c.op("remove(#%d: %s%s)", x->serial, pos, has_children ? " with children" : " leaf");
+			c.tagf("remove-%s", pos); if(!has_children) c.tag("remove-leaf");
+			if(!root && has_children) nt = true;
+		} else {
+			x = r.ref[k % r.ref.size()];
+			c.op("remove(#%d%s)", x->serial, x == r.heap->top() ? ": top()" : "");
+			if(x != r.heap->top() && r.ref.size() >= 4) nt = true;
+		}
 		r.heap->remove(x);
-		r.ref.erase(std::find(r.ref.begin(), r.ref.end(), x));
+		r.ref.erase(std::find(r.ref.begin(), r.ref.end(), x)); x->in = false;
 		r.gone(x, "remove"); free_list.push_back(x);
 		r.check("remove");
 	};
@@ -114,7 +165,14 @@ void run(Ctx &c, bool scripted) {
 		unsigned nops = 1 + t.pick(50);
 		if(t.pick(6) == 0) nops += t.pick(250);
 		for(unsigned i = 0; i < nops && !t.done(); i++) {
-			unsigned op = t.pick(10);
+			uint32_t raw = t.next(); unsigned op = raw % 10;
+			if((raw / 10) % 16 == 15 && !r.ref.empty()) {
+				// everything out and in again: exact containment in the middle of a history, and every element is pushed again
+				c.op("drain %zu and push them again", r.ref.size()); c.tag("drain-and-refill");
+				std::vector<Elem *> out; r.drain("drain in the middle of the history", &out);
+				for(Elem *e : out) { r.heap->push(e); r.ref.push_back(e); e->in = true; r.check("push"); }
+				continue;
+			}
 			if(op < 5 || r.ref.empty()) push(gen_prio());
 			else if(op < 7) pop();
 			else remove(t.pick(r.ref.size()));
@@ -122,13 +180,7 @@ void run(Ctx &c, bool scripted) {
 	}
 	// drain: pops come out in non-increasing priority and are a permutation of the reference
 	c.op("drain %zu", r.ref.size());
-	int lastp = 0; bool first = true;
-	while(!r.ref.empty()) {
-		Elem *top = r.heap->top();
-		VCHECK(c, "C08", first || top->prio <= lastp, "drain: prio %d is popped after prio %d", top->prio, lastp);
-		lastp = top->prio; first = false;
-		pop();
-	}
+	{ std::vector<Elem *> out; r.drain("drain", &out); for(Elem *e : out) free_list.push_back(e); }
 	c.destroy(r.heap);
 	for(int i = 0; i < next_free; i++) pool[i].~Elem();     // the hook's destructor asserts that it is unlinked
 	c.nontrivial = nt;
